@@ -80,6 +80,15 @@ def c08Cell (l : Lang) (r : Role) (sc : Scope) (vals : List Str) (delim op : Str
   | some nf, some topic => showNSegs nf ++ "@" ++ hexOfStr topic
   | _, _ => "B@fail"
 
+/-- `"prefix" __ PrefixToken`: `__` also skips comments, so a first token that begins with `#`,
+or `//` is read by the IDL lexer as a comment to the end of the line and the scope does not
+parse (`/*` only opens a comment when a `*/` follows; the harness does not generate that).
+Lexical, not part of the topic model. -/
+def startsComment : Str → Bool
+  | '#' :: _ => true
+  | '/' :: '/' :: _ => true
+  | _ => false
+
 def hasMarker (s : Str) : Bool := s.any fun c => c.toNat == 0xE000 || c.toNat == 0xE001
 
 def stepTopic (op : String) (args : List String) : Option String :=
@@ -90,7 +99,7 @@ def stepTopic (op : String) (args : List String) : Option String :=
       if ops.isEmpty || (pfx :: name :: delim :: (ops ++ vals)).any hasMarker then some "err:parse" else
       let toks := toksOfPrefix pfx
       if !plainTokens toks then some "excluded:format-chars" else
-      if !(toks.all Tok.wf) || !isIdentifier name || !(ops.all isIdentifier) then some "err:parse" else
+      if !(toks.all Tok.wf) || startsComment pfx || !isIdentifier name || !(ops.all isIdentifier) then some "err:parse" else
       let sc : Scope := ⟨name, toks⟩
       match extractVars sc.pfxStr with
       | none => some "err:badvar"
